@@ -65,6 +65,13 @@ pub mod utils;
 mod debug;
 pub use debug::{AsmOpInfo, VmState, VmStateIterator};
 
+// verification hooks: make the stack and system components nameable from out-of-tree harnesses
+#[cfg(feature = "cf-verif")]
+pub mod cf_verif {
+    pub use super::stack::Stack;
+    pub use super::system::System;
+}
+
 // RE-EXPORTS
 // ================================================================================================
 
